@@ -122,6 +122,25 @@ def sends(F, bodies):
     return calls_in(F, bodies, r"UnboundedSender::<.*>::unbounded_send$", r"UnboundedSender.*::unbounded_send$")
 
 
+def reaches_send(F, cb, depth=0, _seen=None):
+    """Does the crate-local fn `cb` send on the event channel — directly or through the private helpers it calls
+    (`send_all_events` -> `try_send` -> `unbounded_send`)?"""
+    if cb is None:
+        return False
+    _seen = _seen if _seen is not None else set()
+    if cb.key in _seen or depth > 3:
+        return False
+    _seen.add(cb.key)
+    for nb in F.nested(cb):
+        if any(True for _ in sends(F, [nb])):
+            return True
+        for _, t in nb.calls():
+            sub = F.callee_body(t, nb.crate)
+            if sub is not None and sub.name.split("::")[0] == cb.name.lstrip("<").split("::")[0] and reaches_send(F, sub, depth + 1, _seen):
+                return True
+    return False
+
+
 def attempt_tree(F):
     """All bodies of the attempt routine: RUN_SCENARIO's fn, everything nested in it, and (transitively) every crate-local
     callee that is a method of the same impl type (the `Executor`), with their nested bodies."""
@@ -154,6 +173,20 @@ def emitters(F, bodies):
                 f = op_fn(t["func"])
                 if f and "event::Event" in f.get("full", ""):
                     out[b.key] = b
+    # ... and the wrappers around them: a fn that takes an event (`event::Cucumber<..>` / `Event<..>` / an iterator of them) and hands
+    # it to an emitter (`send_event` -> `try_send` -> `unbounded_send`) emits what it is given
+    for _ in range(3):
+        grew = False
+        for b in bodies:
+            if b.kind not in ("Fn", "AssocFn") or b.key in out:
+                continue
+            if not any(re.search(r"event::(Cucumber|Event)\b", ty) for ty in b.locals[1:b.arg_count + 1]):
+                continue
+            if any(F.callee_body(t, nb.crate) is not None and F.callee_body(t, nb.crate).key in out for nb in F.nested(b) for _, t in nb.calls()):
+                out[b.key] = b
+                grew = True
+        if not grew:
+            break
     return out
 
 
